@@ -60,10 +60,14 @@ def splitNetloc (url : Str) : Str × Str :=
     | none => (rest, [])
   else ([], url)
 
+/-- `s.split(c, 1)` when `c` occurs, `(s, "")` otherwise -/
+def cutAt (c : Char) (s : Str) : Str × Str :=
+  match splitOnce c s with
+  | some (a, b) => (a, b)
+  | none => (s, [])
+
 def splitTail (url : Str) : Str × Str × Str :=
-  let (url, fragment) := match splitOnce '#' url with | some (a,b) => (a,b) | none => (url, [])
-  let (url, query) := match splitOnce '?' url with | some (a,b) => (a,b) | none => (url, [])
-  (url, query, fragment)
+  ((cutAt '?' (cutAt '#' url).1).1, (cutAt '?' (cutAt '#' url).1).2, (cutAt '#' url).2)
 
 def bracketed (nl : Str) : Str :=
   let afterO : Str := match splitOnce '[' nl with | some (_, b) => b | none => []
